@@ -297,6 +297,9 @@ def problem_features(P):
         bassign = [e["f"]["name"] for e in effs if e["kind"] == "assign" and ftype[e["f"]["name"]] == "bool"]
         if len(bassign) != len(set(bassign)):
             fs.add("aad")  # several assignments to one Boolean fluent in one action (add-after-delete)
+        oassign = [e["f"]["name"] for e in effs if e["kind"] == "assign" and ftype[e["f"]["name"]] == "user"]
+        if len(oassign) != len(set(oassign)):
+            fs.add("objmultiassign")  # several assignments to one object-valued fluent (possibly the same ground fluent) in one action
         nassign = [e["f"]["name"] for e in effs if e["kind"] == "assign" and ftype[e["f"]["name"]] != "bool" and e["c"]["op"] != "const"]
         if len(nassign) != len(set(nassign)):
             fs.add("multicondassign")
@@ -362,7 +365,7 @@ def quantified_connective(P):
     return any(visit(e) for e in es)
 
 
-RELEVANT = {"ncrm": ["aad"], "dcrm": ["constatom", "disjcondinc"], "cerm": ["multicondassign"]}
+RELEVANT = {"ncrm": ["aad"], "dcrm": ["constatom", "disjcondinc"], "cerm": ["multicondassign"], "utfrm": ["objmultiassign"]}
 
 
 def signature(comp, clause, P):
